@@ -81,6 +81,8 @@ def cases(tier, seed):
             case.update({"nested": rng.randint(1, k - 1) if k > 2 else 1, "buf2": rng.choice([1, 4, 10 ** 6]), "left": h % 8 == 1})
         elif h % 7 == 3:
             case["via"] = "cli"
+        if h % 6 == 5:
+            case["shared_file"] = True
         yield "mg.merge", case
     # (3) values near the limits of the value dtype: the exact aggregate or an error, never something else
     for h in range(60 if tier == "quick" else 600):
